@@ -62,6 +62,14 @@ def fixtures(cfg):
         v["order%d" % i] = [1, 0, 0, 0, 0][i]
     for k in range(6):
         v["se%d" % k] = 0.3 + 0.1 * k
+    if cfg.get("h") == "roundtrip" and cfg.get("n", 0) <= 3:
+        # a second fixture whose values all survive a float32 round trip (dyadic fractions, small integers, zero)
+        w = dict(v)
+        for i in range(4):
+            for k in range(24):
+                w["th%d_%d" % (i, k)] = ((i * 7 + k * 13) % 64 - 20) / 16.0
+            w["th%d_prec" % i] = 2.0 + i
+        return [v, w]
     return [v]
 
 
@@ -109,6 +117,10 @@ def _params_of(theta):
     return out
 
 
+def _dtypes(theta):
+    return {k: str(v.dtype) for k, v in theta.private_parameters_dict().items() if hasattr(v, "dtype")}
+
+
 def _same_theta(ctx, theta, vals, label):
     got = _params_of(theta)
     ctx.prove(sorted(got) == sorted(vals), label + ": same parameter names")
@@ -145,6 +157,9 @@ def h_roundtrip(ctx, cfg):
     for i in range(min(n, len(back.thetas))):
         _same_theta(ctx, back.get_theta(i), truth[i], "sample %d after reload (order preserved)" % i)
         ctx.prove(type(back.get_theta(i)).__name__ == type(holder.get_theta(i)).__name__, "sample type restored")
+        saved_dt, back_dt = _dtypes(holder.get_theta(i)), _dtypes(back.get_theta(i))
+        ctx.prove(all(back_dt.get(k) == dt for k, dt in saved_dt.items()), "every parameter array comes back with the dtype it was saved with",
+                  key="parameter dtype changed by save / load")
     if kind != "combo":
         lk = back.get_theta(0).single_effect_lookup
         got = {(int(a), int(b)): v for (a, b), v in lk.items()}
